@@ -30,7 +30,9 @@ LEVEL = {
             'note': _TB},
     'C05': {'text': 'Theorems on the page-buffer model for any page size, offset and length: writes change the view exactly in the written range and never the disk, reads return the view and change nothing, '
                     'Flush makes disk = view and keeps view and length; on the handle model: a fresh Open after Sync fetches what the live handle fetches, and for every history and every abandonment point the disk is '
-                    'the state of the last Sync. The code is compared after every operation (file bytes vs last-sync snapshot, second-handle fetches) and for failing CLI writes.',
+                    'the state of the last Sync. Composed: a 12-byte slot write through the buffer is putPointAt on the archives of the viewed image and leaves the disk alone, a slot read returns the stored point, '
+                    'and Flush followed by Open on the disk bytes returns exactly the header and archives the handle showed. '
+                    'The code is compared after every operation (file bytes vs last-sync snapshot, second-handle fetches, a waiting opener) and for failing CLI writes.',
             'design_ref': '5 C05',
             'note': _TB + 'Process death is modelled as dropping the handle with an intact kernel; power loss / fsync durability is outside the model.'},
     'C14': {'text': 'Theorems for every encodable object and every remainder: decode(encode x ++ r) = (x, r); for every proper prefix the decoder '
